@@ -74,7 +74,8 @@ structure Reader where
   cover : List BBox
 
 /-- the zoom loop `for z in z0..=z1`; `skipEmpty = false` is the behaviour before the F10 repair.
-    `2i32.pow(z)` overflows for `z ≥ 31` (panic). -/
+    (`max_value` is computed without overflow since /repo commit 2c79ad64; a level above 31 is
+    rejected by `TileBBox::new`.) -/
 def coverLevels (db : DB) (skipEmpty : Bool) : List Nat → Outcome (List BBox)
   | [] => .ok []
   | z :: zs =>
@@ -82,7 +83,7 @@ def coverLevels (db : DB) (skipEmpty : Bool) : List Nat → Outcome (List BBox)
     | none =>
       if skipEmpty then coverLevels db skipEmpty zs else .err
     | some rg =>
-      if z ≥ 31 then .panic
+      if z > 31 then .err
       else match coverLevels db skipEmpty zs with
         | .ok l => .ok (levelBox z rg :: l)
         | .err => .err
